@@ -75,7 +75,14 @@ func (g *g2) stmt() *Node {
 	if g.budget <= 0 {
 		return Log(g.yieldExpr())
 	}
-	switch g.draw(24, "s") {
+	switch g.draw(26, "s") {
+	case 24, 25:
+		// a function-level variable that lives in the scope object (captured by fvf): reading and writing it
+		// after a resumption / inside a finally entered by return() needs the right scope chain to be current
+		if g.draw(2, "fvw") == 0 {
+			return ExprStmt(Set(Id("fv"), Bin("+", Id("fv"), Str("."))))
+		}
+		return Log(Arr(Id("fv"), Call(Id("fvf"))))
 	case 23:
 		// a call of the running generator's own next/throw/return from inside its body
 		if !g.async {
@@ -127,8 +134,19 @@ func (g *g2) stmt() *Node {
 	case 3:
 		return ExprStmt(Set(Id("acc"), Bin("+", Id("acc"), Tmpl([]string{"[", "]"}, g.yieldExpr()))))
 	case 4, 5:
-		blk := Block(g.stmts(1 + g.draw(2, "tl"))...)
-		fin := Block(append([]*Node{Log(Str("finally"))}, g.stmts(g.draw(2, "fl"))...)...)
+		inner := g.stmts(1 + g.draw(2, "tl"))
+		if g.draw(2, "tscope") == 0 {
+			// the try body suspends inside a block that owns a scope object of its own; a finally block entered by
+			// return()/throw() from there must run in the scope of the try statement (it reads fv through it)
+			g.n++
+			loc := fmt.Sprintf("tl%d", g.n)
+			inner = []*Node{Block(append(append([]*Node{
+				VarDecl("let", Declarator(Id(loc), Str(loc))),
+				VarDecl("const", Declarator(Id(loc+"f"), ArrowExpr(Params(), Id(loc))))},
+				inner...), Log(Call(Id(loc+"f"))))...)}
+		}
+		blk := Block(inner...)
+		fin := Block(append([]*Node{Log(Arr(Str("finally"), Id("fv"), Call(Id("fvf"))))}, g.stmts(g.draw(2, "fl"))...)...)
 		return Try(blk, nil, nil, fin)
 	case 6:
 		return Try(Block(g.stmts(1+g.draw(2, "tl2"))...), Id("e"), Block(append([]*Node{Log(Id("e"))}, g.stmts(g.draw(2, "cl"))...)...), nil)
@@ -168,6 +186,7 @@ var placements = []string{"global", "function", "eval"}
 func GenGeneratorCase(t *rapid.T) (*Node, Options, bool) {
 	g := &g2{t: t, budget: rapid.IntRange(3, 25).Draw(t, "budget"), async: rapid.IntRange(0, 3).Draw(t, "async") == 0}
 	body := g.stmts(1 + g.draw(4, "n"))
+	body = append([]*Node{VarDecl("var", Declarator(Id("fv"), Str("fv"))), VarDecl("const", Declarator(Id("fvf"), ArrowExpr(Params(), Id("fv"))))}, body...)
 	prog := JS(genPrelude)
 	prog.Kids = append(prog.Kids, Var("acc", Str("")))
 	nonPlainNext := false
